@@ -640,7 +640,9 @@ def div_mode(k, t, ylane):
     """width-1 vectors route to the hardware divider: uninterpreted-division mode (full domain, routing proof).
     SIMD emulations (shift-subtract, FP division) are beyond SAT for symbolic divisors: PARTIAL DOMAIN -- all dividends,
     divisors of every lane drawn from a fixed lattice -- reported as partial, never as proved."""
-    if t.W == 1:
+    if t.W == 1 or t.bits == 64:
+        # 64-bit SIMD lanes are divided one by one with the scalar divider in every x86 branch: same routing proof, and
+        # with no pre-condition on the other lanes a zero divisor anywhere reaches the "division by zero" check
         k.defines = ['AVM_DIV_UF']
         return k
     lat = div_lattice(t)
